@@ -91,9 +91,14 @@ Norm(ver, names, s) ==
 Restrict(o, ks) == O([k \in Keys(o) \cap ks |-> o.m[k]])
 
 (* constraints of a v2 parameter-like object (parameter, header, form parameter) *)
-ParamCons2(names, p) == Norm(2, names, Restrict(p, ParamKeys))
+ParamCons2(names, p) == Norm(2, names, Restrict(p, ParamKeys \cup {"x-nullable"}))
 (* constraints of a v3 parameter / header: its schema *)
-ParamCons3(names, p) == IF Has(p, "schema") THEN Norm(3, names, p.m["schema"]) ELSE EmptyO
+(* x-nullable on a v2 parameter / header / form parameter is an extension of the parameter object; the  *)
+(* statement does not say where OpenAPI 3 must carry it, so "nullable: true" in the schema and the        *)
+(* extension kept on the v3 parameter (or on the form property schema) both count as saying "nullable";   *)
+(* for schema objects proper (definitions, body, response) only "nullable" counts.                        *)
+WithNullable(c, yes) == IF yes /\ c.t = "obj" /\ "$badref" \notin DOMAIN c.m THEN O(KV("nullable", B(TRUE)) @@ c.m) ELSE c
+ParamCons3(names, p) == WithNullable(IF Has(p, "schema") THEN Norm(3, names, p.m["schema"]) ELSE EmptyO, IsTrue(p, "x-nullable"))
 Req(p) == B(IsTrue(p, "required"))
 
 (* one-level dereference of x into the component table `table` *)
@@ -192,7 +197,7 @@ Resp3(d, names, r0) ==
 (* constraints                                                                        *)
 FormCons3(names, stab, prop) ==
    LET x == Deref(SchemaPrefix(3), stab, prop) IN
-   IF Has(x, "$badref") THEN x ELSE Norm(3, names, Restrict(x, ParamKeys \cup {"nullable"}))
+   IF Has(x, "$badref") THEN x ELSE WithNullable(Norm(3, names, Restrict(x, ParamKeys \cup {"nullable"})), IsTrue(x, "x-nullable"))
 
 Op3(d, item, op) ==
    LET comps == Sub(d, "components")
